@@ -377,6 +377,11 @@ def _abs7_rows_terms(ctx, f, key):
         incache = live = None
         rowset = None
         wrapped_in = None
+        if f.name == "__getitem__" and st.ret is not None and st.ret[0] == "bool" and st.ret[1] in ("or", "and"):
+            # `buffered or wrapped[key]` hands out one of its operands: a buffered value that is falsy (b"" is a
+            # legitimate value) is skipped and the wrapped db answers instead
+            rows.setdefault("in-live", set()).add("`%s` of two values (a falsy buffered value such as b'' is lost)" % st.ret[1])
+            continue
         for t, pol, _ in st.log:
             r = rel_norm(t, pol)
             if r is None:
